@@ -92,6 +92,9 @@ def check(cfg, res):
         out = res['out']
         label = cfg['label']
         for fn, val in out.items():
+            if isinstance(val, BaseException) and not fn.startswith(OBJ_PREFIXES):
+                # every array written by the conversion (incl. the spike-waveform subset) must load
+                bad.append(('file', 'unreadable:' + fn.split('.')[0], 'np.load works', fn + ': ' + repr(val)))
             if not fn.startswith(OBJ_PREFIXES):
                 continue
             parts = fn.split('.')
